@@ -311,7 +311,7 @@ K("tri.required_links", ["C02", "C05"], TRI, "triangulation.rs", "required_links
   mutant=dict(file=TRI, old="            validate_ridge_links(&self.tds).map_err(TriangulationValidationError::from)?;\n            true\n        } else {",
               new="            true\n        } else {", desc="ridge-link check dropped from the PLManifold branch"))
 K("tri.level3", ["C05", "C15"], TRI, "triangulation.rs", "level3_conjunction_contract", "K-callee",
-  [fn(TRI, "is_valid", anchor=r"pub fn is_valid\(&self\) -> Result<\(\), TriangulationValidationError>")], timeout=1200,
+  [fn(TRI, "is_valid", anchor=r"pub fn is_valid\(&self\) -> Result<\(\), TriangulationValidationError>")], timeout=1200, tier_for={"C15": "thorough"},
   obligations=["conjunction", "all-consulted", "err-origin"], assumed=[_ASSUME_VALIDATORS],
   claim="Triangulation::is_valid == conjunction of its eight invariants incl. the Euler clause (chi == expected when known), guarantee-dependent link checks",
   mutant=dict(file=TRI, old="        self.validate_no_isolated_vertices()?;\n\n        // 4. Euler", new="        // 4. Euler",
@@ -533,10 +533,17 @@ K("hull.validity", ["C11"], HULL, "hull.rs", "hull_validity_contract", "K-callee
   claim="ConvexHull::is_valid_for_triangulation <=> creation generation == triangulation generation, for all pairs of u64 generations; invalidate_cache leaves the creation generation alone",
   mutant=dict(file=HULL, old=".map_or(self.is_empty(), |&g| g == tri.tds.generation())", new=".map_or(self.is_empty(), |&g| g <= tri.tds.generation())",
               desc="hull considered valid for any newer triangulation generation"))
-for nm, fname, tier in [("validate", "validate", "quick"), ("is_point_outside", "is_point_outside", "quick"), ("find_visible", "find_visible_facets", "thorough"),
+for nm, fname, har, pair in [("is_point_outside.c56", "is_point_outside", "hull_stale_is_point_outside_c56", (5, 6)), ("is_point_outside.c65", "is_point_outside", "hull_stale_is_point_outside_c65", (6, 5)),
+                             ("facet_visible.c56", "is_facet_visible_from_point", "hull_stale_facet_visible_c56", (5, 6)), ("find_nearest.c65", "find_nearest_visible_facet", "hull_stale_find_nearest_c65", (6, 5))]:
+    K(f"hull.stale.{nm}", ["C11", "C19"], HULL, "hull.rs", har, "K-callee", [fn(HULL, fname, anchor=r"pub fn " + fname + r"\(")],
+      tier="thorough", timeout=5400, assumed=_HULL_ASSUME,
+      obligations=["stale-" + nm.split(".")[0].replace("_", "-"), "no-cache-work"],
+      bounded=f"one concrete pair of generations (hull created at {pair[0]}, triangulation at {pair[1]}), one facet handle, any query point; all pairs: the thorough-tier twin",
+      claim=f"ConvexHull::{fname} on a stale hull (generation {pair[0]} vs {pair[1]}) returns StaleHull before any cache build - no panic, no answer")
+for nm, fname, tier in [("validate", "validate", "quick"), ("is_point_outside", "is_point_outside", "thorough"), ("find_visible", "find_visible_facets", "thorough"),
                         ("find_nearest", "find_nearest_visible_facet", "thorough"), ("facet_visible", "is_facet_visible_from_point", "thorough")]:
     K(f"hull.stale.{nm}", ["C11", "C19"], HULL, "hull.rs", f"hull_stale_{nm}", "K-callee",
-      [fn(HULL, fname, anchor=r"pub fn " + fname + r"\(")], tier=tier, timeout=1800, assumed=_HULL_ASSUME,
+      [fn(HULL, fname, anchor=r"pub fn " + fname + r"\(")], tier=tier, timeout=1800 if tier == "quick" else 5400, assumed=_HULL_ASSUME,
       obligations=["stale-" + nm.replace("_", "-"), "no-cache-work"],
       bounded="hull with 1..2 facet handles; all pairs of distinct u64 generations; any query point",
       claim=f"ConvexHull::{fname} on a hull whose triangulation changed (generation differs) returns StaleHull before any cache build or facet access",
@@ -586,14 +593,15 @@ fn violation_verdict<const D: usize>(config: &RepairAttemptConfig, in_a: i32, in
   mutant=dict(file=FLIPS, old="let both_positive_artifact = D >= 4 && config.use_robust_on_ambiguous && in_a > 0 && in_b > 0;",
               new="let both_positive_artifact = D >= 3 && config.use_robust_on_ambiguous && in_a > 0 && in_b > 0;", desc="D >= 4 artefact suppression widened to D >= 3"))
 
-K("tds.remove_cells_bump", ["C11"], TDS, "tds.rs", "remove_cells_bumps_generation_contract", "K-callee",
-  [fn(TDS, "remove_cells_by_keys")], timeout=1500,
-  assumed=["collect_removal_frontier_and_clear_neighbor_back_references / remove_cells_and_update_uuid_mappings / repair_incident_cells_after_cell_removal (stubs): any removed count <= number of keys, storage effects not modelled"],
-  bounded="at most 2 cell keys (concrete key values; the key set is a real hash set)",
-  obligations=["count", "bump-on-removal", "incidence-repaired", "no-bump-without-change"],
-  claim="Tds::remove_cells_by_keys: whenever at least one cell was removed the generation is bumped exactly once (so hulls see the change); nothing removed => no bump",
-  mutant=dict(file=TDS, old="        // Bump generation once for all removals (neighbors + incidence + cell storage).\n        self.bump_generation();\n", new="",
-              desc="generation bump after bulk cell removal deleted"))
+for _k, _tier in [(1, "thorough"), (2, "thorough"), (0, "thorough")]:
+    K(f"tds.remove_cells_bump.k{_k}", ["C11"], TDS, "tds.rs", f"remove_cells_bumps_generation_k{_k}", "K-callee",
+      [fn(TDS, "remove_cells_by_keys")], tier=_tier, timeout=1500 if _tier == "quick" else 5400,
+      assumed=["collect_removal_frontier_and_clear_neighbor_back_references / remove_cells_and_update_uuid_mappings / repair_incident_cells_after_cell_removal (stubs): any removed count <= number of keys, storage effects not modelled"],
+      bounded=f"{_k} cell key(s) (concrete key values; the key set is a real hash set)",
+      obligations=(["count", "bump-on-removal", "incidence-repaired", "no-bump-without-change"] if _k > 0 else ["count", "no-bump-without-change"]),
+      claim="Tds::remove_cells_by_keys: whenever at least one cell was removed the generation is bumped exactly once (so hulls see the change); nothing removed => no bump",
+      mutant=dict(file=TDS, old="        // Bump generation once for all removals (neighbors + incidence + cell storage).\n        self.bump_generation();\n", new="",
+                  desc="generation bump after bulk cell removal deleted") if _k == 1 else None)
 K("tds.remove_missing_cell", ["C11"], TDS, "tds.rs", "remove_missing_cell_contract", "K-full",
   [fn(TDS, "remove_cell_by_key")], tier="thorough", timeout=900, obligations=["missing-noop"],
   bounded="empty Tds (every key is missing)",
@@ -606,7 +614,7 @@ for _nm, _tier in [("n1_nohint", "quick"), ("n2_nohint", "thorough"), ("n2_hint"
       claim="Triangulation::adjacent_cells(v) yields exactly the stored star of v for every state of the vertex's incident-cell hint")
 
 TOPOV = "src/topology/characteristics/validation.rs"
-for d, wb, tier in [(3, "ball", "thorough"), (3, "closed", "quick"), (2, "ball", "thorough"), (2, "closed", "thorough")]:
+for d, wb, tier in [(3, "ball", "thorough"), (3, "closed", "thorough"), (2, "ball", "thorough"), (2, "closed", "thorough")]:
     K(f"euler.classify.d{d}.{wb}", ["C15"], TOPOV, "topo_validation.rs", f"euler_classify_d{d}_{wb}", "K-callee",
       [fn(TOPOV, "validate_triangulation_euler_with_facet_to_cells_map")], tier=tier, timeout=1500,
       assumed=["count_simplices_with_facet_to_cells_map (stub: any f-vector), euler_characteristic (stub: any chi; proved by euler.len*), Tds::number_of_cells (stub: any count); format! stubbed"],
@@ -630,7 +638,7 @@ K("builder.canonicalize_vertices", ["C16"], BUILDER, "builder.rs", "canonicalize
 # C19 is the union of the no-panic obligations; in the quick tier only the cheap units run for it
 # ======================================================================================
 _C19_QUICK = {"hilbert.d2b4", "wrap_coord.d2", "canon_model.d2_f64", "valid.vertex.d2", "maxflips", "flipkind",
-              "tri.validate_after_insertion", "hull.stale.validate", "hull.stale.is_point_outside"}
+              "tri.validate_after_insertion", "grid.key.d2", "grid.unkeyable_disables", "handles.canonical", "euler.len4"}
 for _u in UNITS:
     if "C19" in _u["props"] and _u.get("tier", "quick") == "quick" and _u["id"] not in _C19_QUICK:
         _u.setdefault("tier_for", {})["C19"] = "thorough"
@@ -701,12 +709,15 @@ for nm, sl, har in [("insert", _SL_INS, "insert_snapshot_decision"), ("insert_wi
                   new="                    .should_check(self.insertion_state.delaunay_repair_insertion_count));\n        let snapshot = snapshot_needed.then(|| {\n            (\n                self.tri.tds.clone(),\n                self.insertion_state,\n                self.spatial_index.clone(),\n            )\n        });\n\n        let insertion_result = (|| {\n            let hint = self.insertion_state.last_inserted_cell;\n            let (outcome, _stats) = {",
                   desc="snapshot decision evaluated on the stale (pre-increment) insertion count") if nm == "insert" else None)
 
+_SL_IDX = dict(file=TRI, fn_anchor=r"fn insert_transactional\(", name="verif_slice_index_update",
+               params="&self, mut index: Option<&mut HashGridIndex<K::Scalar, D>>, vertex_key: VertexKey, original_coords: [K::Scalar; D]", ret="()",
+               stmts=[dict(block=r"if let Some\(index\) = index\.as_deref_mut\(\)")], result="let _ = &original_coords;")
 _SL_ORI = dict(file=TRI, fn_anchor=r"pub\(in crate::core\) fn validate_geometric_cell_orientation\(", name="verif_slice_orientation_decision",
                params="&self, orientation: i32, cell_key: CellKey, cell: &Cell<K::Scalar, U, V, D>", ret="Result<(), TriangulationValidationError>",
                stmts=[dict(block=r"if orientation == 0 \{"), dict(block=r"if orientation < 0 \{")], result="Ok(())")
 K("tri.orientation_decision", ["C05"], TRI, "tri_slices.rs", "orientation_decision_contract", "K-slice",
   [dict(file=TRI, name="Triangulation::validate_geometric_cell_orientation (K-slice: loop body)", anchor=_SL_ORI["fn_anchor"])],
-  slices=[_SL_ORI], extra_attach=[("src/core/cell.rs", "cell_helper.rs")], timeout=900,
+  slices=[_SL_ORI, _SL_IDX], extra_attach=[("src/core/cell.rs", "cell_helper.rs")], timeout=900,
   assumed=["K-slice: the two `if orientation ..` statements of the loop body, everything else (cell iteration, the orientation predicate itself) dropped; format! stubbed"],
   obligations=["positive-only"],
   claim="per-cell decision of validate_geometric_cell_orientation: Ok <=> orientation > 0 (flat and inverted cells rejected), for every i32 orientation value",
@@ -745,7 +756,7 @@ V("bruteforce_artifact_guard", ["C04"], [
 # C01 : the certification gate of batch construction (retry wrapper, K-callee)
 # ======================================================================================
 K("construct.retry_gate", ["C01"], DT, "dt_build.rs", "construction_retry_gate_contract", "K-callee",
-  [fn(DT, "build_with_shuffled_retries")], timeout=1500, no_playback=True,
+  [fn(DT, "build_with_shuffled_retries")], tier="thorough", timeout=7200, mem_gb=24, no_playback=True,
   assumed=["build_with_kernel_inner_seeded (stub): returns SOME candidate (its Err outcomes are not exercised: the wrapper formats them with Display, which does not fit in CBMC); "
            "is_delaunay_property_only (stub): pure, any verdict; shuffle_vertices / construction_shuffle_seed (stubs: StdRng / hashing not modelled); format!, env::var_os stubbed"],
   bounded="1 shuffled retry, empty vertex slice (the wrapper never looks at the vertices itself)",
@@ -753,3 +764,14 @@ K("construct.retry_gate", ["C01"], DT, "dt_build.rs", "construction_retry_gate_c
   claim="DelaunayTriangulation::build_with_shuffled_retries: Ok is returned only for the candidate that the brute-force Delaunay gate accepted (and that was built last); a rejected candidate leads to shuffled retries, then Err",
   mutant=dict(file=DT, old="            Ok(candidate) => match crate::core::util::is_delaunay_property_only(&candidate.tri.tds)\n            {\n                Ok(()) => return Ok(candidate),\n                Err(err) => format!(\"Delaunay property violated after construction: {err}\"),\n            },",
               new="            Ok(candidate) => return Ok(candidate),", desc="first candidate returned without consulting the Delaunay gate"))
+
+
+K("tri.index_update", ["C09"], TRI, "tri_slices.rs", "index_update_uses_stored_coords_contract", "K-slice",
+  [dict(file=TRI, name="Triangulation::insert_transactional (K-slice: index update after a committed insertion)", anchor=_SL_IDX["fn_anchor"])],
+  slices=[_SL_ORI, _SL_IDX], extra_attach=[("src/core/cell.rs", "cell_helper.rs")], timeout=900,
+  assumed=["K-slice: the single `if let Some(index) = index.as_deref_mut() ..` statement, everything else in insert_transactional dropped (the function itself does not fit CBMC: InsertionError); "
+           "Tds::get_vertex_by_key (stub): the stored vertex with arbitrary stored coordinates; HashGridIndex::insert_vertex (stub): records the coordinates it is given"],
+  obligations=["index-updated", "filed-under-stored-coords"],
+  claim="index update of insert_transactional: the new vertex is filed under its STORED coordinates for every pair (stored, requested) of finite coordinate tuples",
+  mutant=dict(file=TRI, old="                        index.insert_vertex(vertex_key, vertex.point().coords());", new="                        let _ = vertex;\n                        index.insert_vertex(vertex_key, &original_coords);",
+              desc="the index files the vertex under the caller's original coordinates"))
